@@ -228,6 +228,17 @@ OBLIGATIONS.append(Obl("f.env-write-file", "C17/env_write.c", real=["util/env.c"
                             "any failure after create => file removed, first error returned",
                        bounds="4 data bytes; should_sync any int; every primitive fails or not with any code"))
 
+for n in (0, 1, 2, 16, 17):
+    OBLIGATIONS.append(Obl("f.read-current-N%d" % n, "C17/current_read.c",
+                           real=["filename.c", "util/strutil.c", "util/buffer.c", "util/slice.c"],
+                           include_real=["version_set.c"],
+                           kit=["vp_nondet.c", "vp_mem.c", "vp_alloc_c17.c", "vp_sprintf.c"],
+                           defs={"VP_N": n, "VP_SLAB": 32}, unwind=max(n + 12, 16),
+                           functions=["read_current_filename", "ldb_current_filename", "ldb_join"],
+                           desc="read_current_filename: reads <db>/CURRENT; read error returned; empty or no trailing newline => "
+                                "LDB_CORRUPTION; else <db>/<name>",
+                           bounds="CURRENT content: %d arbitrary bytes; read fails or not with any code" % n))
+
 META = {
     "level": "model_checking",
     "level_text": "Bounded model checking (CBMC) of lcdb's own coding.h / version_edit.c / version_set.c code: encode/decode round trips and agreement with an independently written LevelDB-format reference for every value of the symbolic fields inside the stated sizes; counterexamples are replayed natively.",
